@@ -6,7 +6,8 @@
 (*   layers    L x H x W integers (NaN = -99), layer values in units of the case's scale     *)
 (*   ref       H x W integers: the reference layer; refc: the same in units of the layer codes *)
 (*   strides   L x <<sy, sx>>: element strides of the layers as handed to the library        *)
-(*   iter      cell ids in the order np.nditer really delivers them for these layouts        *)
+(*   iter, iterK  cell ids in the order np.nditer really delivers them for these layouts with  *)
+(*             the code's order (CODE_ORDER) and with numpy's default order 'K'                *)
 (*   out       record: operator name |-> [h, w, g] with g the h x w grid of results, each a   *)
 (*             rational <<num, den>>, NaN = <<0,0>> ("std" carries the SQUARE of the output)  *)
 (*   pop       the same for popularity (not defined by the property: NaN rule + per-cell)    *)
@@ -15,9 +16,12 @@
 (*   full      1 when the raster is claimed to carry the complete case space (checked here)   *)
 (*   pairs     1 when per-cell consistency of equal inputs is to be checked (small rasters)   *)
 (* Verdict: the first clause of the property that fails, "ok" otherwise.  The extra field      *)
-(* says whether a failure is the one the iteration model (LocalOps!Src with order "K")        *)
-(* predicts, and whether np.nditer's observed order matches that model (drift otherwise).     *)
+(* says whether np.nditer's observed orders match the model (drift otherwise) and, for a       *)
+(* failure, whether the outputs are those of the old iteration order 'K' (LocalOps!Src).       *)
 EXTENDS LocalOps, TLC, Json, IOUtils
+
+\* the iteration order of the modelled code: "C" (np.nditer(..., order='C')) since fix ffb8ff0
+CONSTANT CODE_ORDER
 
 Cases == ndJsonDeserialize(IOEnv.VERIF_CASES)
 
@@ -119,27 +123,33 @@ Clause(c) ==
   ELSE LET d == PopClause(c) IN
   IF d # "ok" THEN "popularity:" \o d ELSE "ok"
 
-\* ---- step level: the iteration model against numpy, and its prediction of the outputs
+\* ---- step level: the iteration model against numpy, and what it says about a failure
+\*   iter  = cell ids in the order np.nditer(order = CODE_ORDER) really delivers them for these layouts
+\*   iterK = the same for np.nditer's default order 'K' (keeps the negative twin's model bound to numpy)
 Lays(c) == c.strides
-ModelIter(c) == [n \in 1..c.H * c.W |->
-                   LET p == IterCell(Lays(c), c.H, c.W, "K", n - 1) IN p[1] * c.W + p[2]]
-IterOK(c) == Len(c.iter) = 0 \/ c.iter = ModelIter(c)
+ModelIter(c, order) == [n \in 1..c.H * c.W |->
+                          LET p == IterCell(Lays(c), c.H, c.W, order, n - 1) IN p[1] * c.W + p[2]]
+IterOK(c) == (Len(c.iter) = 0 \/ c.iter = ModelIter(c, CODE_ORDER)) /\ (Len(c.iterK) = 0 \/ c.iterK = ModelIter(c, "K"))
 
 \* the outputs are exactly what the definition gives when output cell <<r,k>> is fed the tuple of Src(r,k)
 \* (the reference layer is read in logical order by the code, so it is not permuted)
-PredictedBy(c, f) ==
+PredictedBy(c, f, order) ==
   LET o == c.out[f] IN
   ShapeOK(c, o) /\ \A p \in Cells(c) :
-     LET s == Src(Lays(c), c.H, c.W, "K", p[1], p[2]) IN
+     LET s == Src(Lays(c), c.H, c.W, order, p[1], p[2]) IN
      REq(o.g[p[1] + 1][p[2] + 1], Def(f, Tuple(c, s[1], s[2]), RefFor(c, f, p[1], p[2])))
+AllPredicted(c, order) == \A i \in 1..Len(Order) : PredictedBy(c, Order[i], order)
 
 Extra(c, cl) ==
   IF ~IterOK(c) THEN "drift_nditer_order_differs_from_model"
   ELSE IF cl = "ok" THEN
-       (IF Scrambles(Lays(c), c.H, c.W, "K") /\ \E i \in 1..Len(Order) : ~PredictedBy(c, Order[i])
+       \* the property holds; the code follows the model unless the model predicts an observable scramble
+       (IF Scrambles(Lays(c), c.H, c.W, CODE_ORDER) /\ ~AllPredicted(c, CODE_ORDER)
         THEN "drift_model_predicts_scramble_but_outputs_ok" ELSE "steps_ok")
-  ELSE IF Scrambles(Lays(c), c.H, c.W, "K") /\ \A i \in 1..Len(Order) : PredictedBy(c, Order[i])
+  ELSE IF Scrambles(Lays(c), c.H, c.W, CODE_ORDER) /\ AllPredicted(c, CODE_ORDER)
        THEN "scramble_predicted_by_iteration_model"
+  ELSE IF Scrambles(Lays(c), c.H, c.W, "K") /\ AllPredicted(c, "K")
+       THEN "outputs_are_those_of_nditer_default_order_K"     \* the defect repaired by ffb8ff0 is back
   ELSE "failure_not_explained_by_iteration_model"
 
 Verdict(c) == LET cl == Clause(c) IN <<cl, Extra(c, cl)>>
